@@ -650,12 +650,52 @@ def r4_order(rep, src, lines, f):
             rep.ok('C04.R4', g.site, 'storage accessor', attr, nontrivial=False)
         else:
             rep.fail('C04.R4', g.site, 'storage accessor', '%s does not use self.%s' % (meth, attr), where=g.where)
+
+
+
+def r7_texts(rep, src, tier):
+    """the statement on whole texts, by interpretation of the constructor and of str()"""
+    # the parser files the blocks in file order, each with its own lines: the constructor and str() interpreted on well-formed texts of
+    # one to three blocks (different packages, versions, distributions, urgencies, numbers of change lines, authors and dates)
+    from .changelogmodel import interpret_text
     fp = src.func(M + ':Changelog.parse_changelog')
-    tt = norm(fp.node)
-    if tt.count('self._blocks.append(current_block)') >= 2 and 'self._blocks.insert' not in tt and 'current_block._changes = changes' in tt:
-        rep.ok('C04.R4', fp.site, 'blocks appended in file order with their change list', 'append, never insert')
+
+    def wf_block(i, nchanges, extra=''):
+        head = 'pkg%d (%d.0-%d) dist%d; urgency=%s%s' % (i, i, i, i, ('low', 'medium', 'high')[i % 3], extra)
+        body = ['', '  * change %d.%d' % (i, 1)] + ['    continued %d.%d' % (i, k_) for k_ in range(2, nchanges + 1)] + ['']
+        trailer = ' -- Author %d <a%d@example.org>  Thu, 0%d Jan 2004 00:00:0%d +0000' % (i, i, i, i)
+        comment_, _c, pairs_ = extra.partition(',')
+        other_ = dict(p_.strip().split('=', 1) for p_ in pairs_.split(',') if p_.strip())
+        return [head] + body + [trailer], dict(package='pkg%d' % i, _raw_version='%d.0-%d' % (i, i), distributions='dist%d' % i, urgency=('low', 'medium', 'high')[i % 3],
+                                                 urgency_comment=comment_, other_pairs=other_,
+                                                 _changes=body, author='Author %d <a%d@example.org>' % (i, i), date='Thu, 0%d Jan 2004 00:00:0%d +0000' % (i, i))
+    bad_ = None
+    docs = [[(1, 1, '')], [(1, 2, ''), (2, 1, '')], [(3, 1, ''), (1, 3, ''), (2, 2, '')], [(2, 1, ', binary-only=yes'), (1, 1, '')], [(1, 0, ''), (2, 1, '')],
+            [(1, 1, ' (HIGH for users of x)'), (2, 1, '')], [(2, 2, ', binary-only=yes, closes=123')], [(3, 1, ' (see NEWS), binary-only=yes'), (2, 1, ''), (1, 1, '')]]
+    for doc in docs:
+        lines, want = [], []
+        for j, (i, nch, extra) in enumerate(doc):
+            bl_, w_ = wf_block(i, nch, extra)
+            lines += ([''] if j else []) + bl_
+            want.append(w_)
+        text = '\n'.join(lines) + '\n'
+        r_ = interpret_text(src, text, True, False)
+        if r_['raised'] is not None or r_['warned']:
+            bad_ = bad_ or 'strict parsing of the well-formed text %r %s' % (text, 'raises %s' % r_['raised'] if r_['raised'] else 'warns %r' % r_['warned'][0])
+        elif r_['format_raised'] is not None or r_['text'] != text:
+            bad_ = bad_ or 'str() of the well-formed text %r %s' % (text, 'raises %s' % r_['format_raised'] if r_['format_raised'] else 'gives %r' % (r_['text'],))
+        else:
+            got_ = [{k_: b_[k_] for k_ in want[0]} for b_ in r_['blocks']]
+            if got_ != want:
+                k_ = next((i_ for i_ in range(min(len(got_), len(want))) if got_[i_] != want[i_]), min(len(got_), len(want)))
+                bad_ = bad_ or 'the well-formed text %r is read as %d block(s)%s; written: %d' % (
+                    text, len(got_), (', block %d shows %r where %r was written' % (
+                        k_ + 1, {a_: got_[k_][a_] for a_ in want[k_] if got_[k_][a_] != want[k_][a_]}, {a_: want[k_][a_] for a_ in want[k_] if got_[k_][a_] != want[k_][a_]}))
+                    if k_ < min(len(got_), len(want)) else '', len(want))
+    if bad_ is None:
+        rep.ok('C04.R7', fp.site, 'blocks in file order, each with what was written (interpreted texts)', '%d well-formed texts of one to three blocks' % len(docs))
     else:
-        rep.fail('C04.R4', fp.site, 'blocks appended in file order with their change list', 'parsed blocks are not appended in file order', where=fp.where)
+        rep.fail('C04.R7', fp.site, 'blocks in file order, each with what was written (interpreted texts)', bad_, where=fp.where)
 
 
 def check(src, rep, tier):
@@ -665,7 +705,7 @@ def check(src, rep, tier):
                        'urgency value+comment agrees with value_re.  Trailer: agreement with endline for name/email/separator/date, default '
                        'separator two blanks.  Routing: in the abstract transition system of parse_changelog every well-formed line class '
                        'takes only warning-free transitions that store the line in the list _format emits it from; EOF after a trailer is clean.')
-    rep.not_decided = ['Version object construction from the captured text', 'encodings other than str / UTF-8 bytes']
+    rep.not_decided = ['Version objects of versions outside the interpreted family (C14 decides the language)', 'encodings other than str / UTF-8 bytes']
     rep.need('C04.R1', 18)
     rep.need('C04.R2', 3)
     rep.need('C04.R3', 10)
@@ -680,8 +720,23 @@ def check(src, rep, tier):
     rep.need('C04.R5', 1)
     rep.guard('C04.R5', common.check_line_primitive, src, 'C04.R5', [M + ':Changelog.parse_changelog'],
               'a change line that contains such a character is cut in two when the changelog is given as one text')
-    out = rep.guard('C04.R4', templ)
+    # "the parsed blocks expose exactly the ... version ... written": the block hands the captured text to the Version class, which
+    # must take every version of the Policy grammar and show it as written (the premise comes from C14's interpreted family)
+    from . import C14
+    rep.need('C04.R6', 2)
+    rep.guard('C04.R6', C14.r4_family, src, tier, 'C04.R6', ('rej', 'comp'))
+    rep.need('C04.R7', 1)
+    n_v, n_e = len(rep.violations), len(rep.errors)
+    rep.guard('C04.R7', r7_texts, src, tier)
+    texts_hold = len(rep.violations) == n_v and len(rep.errors) == n_e
+    # the template-level readings below are exact for ALL well-formed texts when the writer is in their vocabulary; when it is not, the
+    # interpreted texts (C04.R7, C04.R6) decide
+    soft = common.SoftErrors(rep, lambda: texts_hold, 'the interpreted well-formed texts (C04.R7), which hold')
+    out = soft.guard('C04.R4', templ)
     if out is None:
+        if texts_hold:
+            for r_ in ('C04.R1', 'C04.R2', 'C04.R3', 'C04.R4'):
+                rep.min_instances[r_] = 0
         return
     f, layouts = out
     lines = layouts[0]
